@@ -31,6 +31,12 @@ def run(ctx: core.Ctx) -> int:
     qual = "ExtendedKalmanFilter.sensor_model"
     scenarios.transfer(it, ctx, rules={"ARR-MM", "ARR-EW", "LAY-SLOT", "LAY-DICT"},
                        funcs=[qual, "ExtendedKalmanFilter._construct_sensors"])
+    # H and h(x) are inputs of the update: their argument layouts and the un-flatten of H (shared with C03)
+    ctx.rule("LAY-CALL", "execute() actuals == the block's arglist (sensor prediction and sensor Jacobian)")
+    ctx.rule("LAY-FLAT", "H is un-flattened with the row stride of the compiled Jacobian")
+    ctx.rule("LAY-ZIP", "predicted readings are zipped with the sensor's sorted reading names")
+    scenarios.transfer(it, ctx, rules={"LAY-CALL", "LAY-FLAT", "LAY-ZIP", "LAY-SLOT"},
+                       funcs=["ExtendedKalmanFilter.sensor_jacobian", "SensorModel.model"])
     R = Layout((("SORT", ("READ", "k"), "natural"),))
     q = sc.Qcls
     okq = isinstance(q, NCls) and q.kind == "cov" and q.layout == R
